@@ -15,6 +15,7 @@ import (
 	"sort"
 	"strings"
 
+	"github.com/mmcloughlin/avo/build"
 	"github.com/mmcloughlin/avo/ir"
 	"github.com/mmcloughlin/avo/pass"
 	"github.com/mmcloughlin/avo/printer"
@@ -207,6 +208,19 @@ func c17(c *Ctx) {
 		n, reps, procs = 1500, 30, 8
 	}
 	progs := c17Progs(c.Seed, n)
+	// a fresh collection / context hands out the same registers whatever was generated before in the process
+	firstIDs := func() string {
+		coll := reg.NewCollection()
+		ctx := build.NewContext()
+		return fmt.Sprint(coll.GP64().ID(), coll.GP8H().ID(), coll.XMM().ID(), coll.K().ID(), coll.GP32().ID(), ctx.GP64().ID(), ctx.ZMM().ID(), ctx.K().ID())
+	}
+	ids0 := firstIDs()
+	defer func() {
+		o.AddCase(Case{Key: "determinism:fresh-collection", Desc: "registers drawn from a fresh reg.Collection and a fresh build.Context before and after all generations", Input: map[string]any{"before": ids0}, Nontrivial: true})
+		if ids1 := firstIDs(); ids1 != ids0 {
+			o.Plan.GoViolations = append(o.Plan.GoViolations, GoViolation{Key: "determinism:fresh-collection", Desc: fmt.Sprintf("a fresh collection/context handed out registers %s at the start of the process and %s after the generations", ids0, ids1), Replay: map[string]any{"before": ids0, "after": ids1}})
+		}
+	}()
 	ref := make([]string, len(progs))
 	prng := NewRNG(c.Seed + 1717)
 	diffs := 0
